@@ -47,6 +47,17 @@ def pairs(rng, tier):
                 out.append((a, a + 1)); out.append((a | 1, (a | 1) + 2))
                 # off by one around a multiple (next/prev_multiple_of, is_multiple_of)
                 out.append((a * k + 1, a)); out.append((a * k - 1, a)); out.append((a * k + a - 1, a))
+    # large LENGTH GAP with exact divisibility (any Euclid-style pre-reduction `long % short` must not lose the
+    # common power of two): short operand even / odd, gaps of 2..24 digits, both argument orders
+    for gap in (2, 3, 5, 8, 9, 10, 12, 17, 24) + ((40, 90) if thorough else ()):
+        for ls in (1, 2, 3):
+            for tz in (0, 1, 3, 10, 63, 64, 70):
+                s_ = (odd(rng, ls) << tz)
+                mult = big(rng, gap + rng.randrange(0, 2)) | 1
+                shift = rng.choice([0, 1, 64 * gap, 64 * gap + 7])
+                long_ = (s_ * mult) << shift if rng.randrange(2) else s_ << (64 * gap + rng.randrange(0, 9))
+                out.append((long_, s_)); out.append((s_, long_))
+                out.append((long_ + s_ // 2 if s_ > 1 else long_ + 1, s_))     # same shape, not divisible
     # common powers of two spanning digits with different trailing-zero counts
     tzs = [0, 1, 2, 63, 64, 65, 127, 128, 130, 200] + ([700, 1999] if thorough else [])
     for i in tzs:
